@@ -31,9 +31,11 @@ def strategy(draw):
     f0 = draw(gen.floats(0.1, 0.5))
     f = [float(v) for v in np.geomspace(f0, f0 * draw(gen.floats(30, 150)), nf)]
     naz = draw(st.sampled_from([0, 0, 0, 1, 2, 3, 4]))      # 0 = traditional
+    pre_td = draw(st.sampled_from(["none", "none", "maximum", "stalta", "stalta"]))
+    nwin_common = draw(st.integers(4, 40))
     groups = []
     for _ in range(max(1, naz)):
-        groups.append(dict(nwin=draw(st.integers(4, 40)), seed=draw(gen.seeds32),
+        groups.append(dict(nwin=nwin_common if pre_td != "none" else draw(st.integers(4, 40)), seed=draw(gen.seeds32),
                            centre=draw(gen.floats(0.25, 0.75)), sigma=draw(gen.log_floats(0.005, 0.15)),
                            outlier_frac=draw(st.sampled_from([0.0, 0.1, 0.25, 0.4])), outlier_sigma=draw(gen.floats(0.05, 0.3)),
                            bimodal=draw(st.sampled_from([0.0, 0.0, 0.08, 0.2, 0.35])), bimodal_frac=draw(gen.floats(0.15, 0.5)),
@@ -47,7 +49,8 @@ def strategy(draw):
                 n=draw(st.one_of(gen.floats(0.3, 4.0), st.sampled_from([1.0, 1.25, 1.5, 2.0, 2.5]))),
                 max_iterations=draw(st.sampled_from([1, 2, 3, 5, 50, 50])),
                 dist_fn=draw(st.sampled_from(["lognormal", "normal"])), dist_mc=draw(st.sampled_from(["lognormal", "normal"])),
-                range=rng, perm_seed=draw(st.integers(0, 10 ** 6)), k=draw(st.sampled_from([-4, -1, 1, 3])))
+                range=rng, perm_seed=draw(st.integers(0, 10 ** 6)), k=draw(st.sampled_from([-4, -1, 1, 3])),
+                pre_td=pre_td)
 
 
 def expand_group(g, f):
@@ -202,6 +205,20 @@ def check_case(case):
 
     refs = [ref_fdwr(f, A, case["n"], case["max_iterations"], case["dist_fn"], case["dist_mc"], rng) for A in groups]
     obj = build(groups)
+    if case.get("pre_td", "none") != "none":
+        # history: a time-domain rejection that keeps every window was applied to the same object before
+        # (the algorithm's own peak search on entry defines the starting accept state, so the reference is unchanged)
+        t = np.arange(300) * 0.01
+        recs = []
+        for i in range(len(groups[0])):
+            ts = hv.TimeSeries(np.sin(2 * np.pi * (2 + 0.1 * i) * t) + 0.2 * np.sin(2 * np.pi * 9 * t + i), 0.01)
+            recs.append(hv.SeismicRecording3C(ts, ts, ts))
+        if case["pre_td"] == "maximum":
+            kept = sut(hv.maximum_value_window_rejection, recs, 5.0, normalized=False, hvsr=obj, what="maximum_value_window_rejection")
+        else:
+            kept = sut(hv.sta_lta_window_rejection, recs, 0.3, 2.5, 0.05, 8.0, hvsr=obj, what="sta_lta_window_rejection")
+        require(len(kept) == len(recs), "harness: the preparatory time-domain rejection was meant to keep every window")
+        labels.append("after-time-domain-rejection")
     try:
         count, logs = _run(hv, obj, case, rng)
     except Refusal as r:
